@@ -18,11 +18,14 @@ import (
 	"hash/fnv"
 	"os"
 	"path/filepath"
+	"runtime"
 	"runtime/debug"
 	"sort"
+	"strconv"
 	"strings"
 	"sync"
 	"testing"
+	"time"
 
 	"pgregory.net/rapid"
 )
@@ -234,10 +237,12 @@ func saveFail(id string, caseJSON []byte, f *Failure) string {
 func Run[C any](t *testing.T, id string, draw func(*rapid.T) C, run func(C, *Stats) *Failure) {
 	st := newStats(id)
 	defer st.write()
+	watch := &caseWatch{}
+	go watch.monitor(id, st)
 
 	if rp := os.Getenv("VERIF_REPLAY"); rp != "" {
 		for _, file := range strings.Split(rp, ",") {
-			replayOne(t, id, file, st, run)
+			replayOne(t, id, file, st, watch, run)
 		}
 		return
 	}
@@ -248,7 +253,9 @@ func Run[C any](t *testing.T, id string, draw func(*rapid.T) C, run func(C, *Sta
 		if err != nil {
 			panic(fmt.Sprintf("case not serialisable: %v", err))
 		}
+		watch.begin(cj, nil)
 		f := safeRun(c, st, run)
+		watch.end()
 		if f != nil {
 			if IsKnown(Prop(id), f.Sig) {
 				st.mu.Lock()
@@ -272,6 +279,84 @@ func Run[C any](t *testing.T, id string, draw func(*rapid.T) C, run func(C, *Sta
 	})
 }
 
+// ---- per-case watchdog --------------------------------------------------------
+//
+// A case that never returns (an endless loop in the code under test) or that allocates without
+// bound cannot report itself.  A monitor goroutine aborts the process with a recorded failure
+// (signature "hang" / "memory") and the current case as the replay, so that the driver reports a
+// violation instead of an inconclusive run.  VERIF_CASE_SECONDS (default 300, real time) and
+// VERIF_CASE_HEAP_MB (default 6144) set the limits.
+
+type caseWatch struct {
+	mu     sync.Mutex
+	active bool
+	start  time.Time
+	cj     []byte
+	replay *ReplayResult
+}
+
+func envInt(name string, def int) int {
+	if v := os.Getenv(name); v != "" {
+		if n, err := strconv.Atoi(v); err == nil && n > 0 {
+			return n
+		}
+	}
+	return def
+}
+
+func (w *caseWatch) begin(cj []byte, rr *ReplayResult) {
+	w.mu.Lock()
+	w.active, w.start, w.cj, w.replay = true, time.Now(), cj, rr
+	w.mu.Unlock()
+}
+
+func (w *caseWatch) end() {
+	w.mu.Lock()
+	w.active = false
+	w.mu.Unlock()
+}
+
+func (w *caseWatch) monitor(id string, st *Stats) {
+	limit := time.Duration(envInt("VERIF_CASE_SECONDS", 300)) * time.Second
+	heap := uint64(envInt("VERIF_CASE_HEAP_MB", 6144)) << 20
+	var ms runtime.MemStats
+	for n := 0; ; n++ {
+		time.Sleep(100 * time.Millisecond)
+		w.mu.Lock()
+		active, start, cj, rr := w.active, w.start, w.cj, w.replay
+		w.mu.Unlock()
+		if !active {
+			continue
+		}
+		var f *Failure
+		if time.Since(start) > limit {
+			buf := make([]byte, 1<<16)
+			buf = buf[:runtime.Stack(buf, true)]
+			f = &Failure{Sig: "hang", Msg: fmt.Sprintf("the case did not finish within %v of real time\n%s", limit, buf)}
+		} else if n%2 == 0 {
+			runtime.ReadMemStats(&ms)
+			if ms.HeapAlloc > heap {
+				f = &Failure{Sig: "memory", Msg: fmt.Sprintf("the heap grew to %d MiB while the case was running (limit %d MiB)", ms.HeapAlloc>>20, heap>>20)}
+			}
+		}
+		if f == nil {
+			continue
+		}
+		// the main goroutine is stuck (or busy allocating): record and leave
+		st.Failures++
+		st.FailMsg, st.FailSig = f.Msg, f.Sig
+		st.FailFile = saveFail(id, cj, f)
+		if rr != nil {
+			rr.Ran, rr.Failed, rr.Sig, rr.Msg = true, true, f.Sig, f.Msg
+			st.Replays = append(st.Replays, *rr)
+			fmt.Printf("VERIF-REPLAY-FAIL %s file=%s sig=%q: %s\n", id, rr.File, f.Sig, f.Msg)
+		}
+		st.write()
+		fmt.Printf("VERIF-FAIL %s sig=%q: %s\n", id, f.Sig, f.Msg)
+		os.Exit(1)
+	}
+}
+
 var probes = map[string]func(*Stats) *Failure{}
 
 // RegisterProbe registers a hand-written deterministic reproduction (used by saved cases of
@@ -287,7 +372,7 @@ type ReplayResult struct {
 	Msg    string `json:"msg"`
 }
 
-func replayOne[C any](t *testing.T, id, file string, st *Stats, run func(C, *Stats) *Failure) {
+func replayOne[C any](t *testing.T, id, file string, st *Stats, watch *caseWatch, run func(C, *Stats) *Failure) {
 	res := ReplayResult{File: file}
 	defer func() { st.Replays = append(st.Replays, res) }()
 	b, err := os.ReadFile(file)
@@ -336,7 +421,9 @@ func replayOne[C any](t *testing.T, id, file string, st *Stats, run func(C, *Sta
 		return
 	}
 	res.Ran = true
+	watch.begin(doc.Case, &ReplayResult{File: file})
 	f := safeRun(c, st, run)
+	watch.end()
 	st.finishCase(doc.Case)
 	if f != nil {
 		res.Failed, res.Sig, res.Msg = true, f.Sig, f.Msg
